@@ -815,6 +815,14 @@ static ares_status_t process_answer(ares_channel_t      *channel,
     goto cleanup;
   }
 
+  /* Only a response can answer a query.  A message without the QR bit (our
+   * own query echoed or reflected back matches it in id and question) is
+   * dropped like any other packet we are not waiting for. */
+  if (!(ares_dns_record_get_flags(rdnsrec) & ARES_FLAG_QR)) {
+    status = ARES_SUCCESS;
+    goto cleanup;
+  }
+
   /* Find the query corresponding to this packet. The queries are
    * hashed/bucketed by query id, so this lookup should be quick.
    */
